@@ -30,6 +30,22 @@ Definition fcell (m : method) (d : cell) (c : list Z) (r : gts (list cell)) (x t
 Definition frame_cell (o : obj) (t x : Z) : cell :=
   match o with OF c r => row_get c (at_ (nanrow c) r t) x | _ => None end.
 
+(* any operand presync can hand column by column: Series, scalar, single-column frame (a pseudo-series), proper frame *)
+Definition simple (o : obj) : bool :=
+  match o with OF [] _ => false | OF _ _ => true | OS _ => true | ON _ => true | _ => false end.
+(* is the operand a series (rather than a scalar) in the call for column x *)
+Definition is_ser (o : obj) (x : Z) : bool :=
+  match o with OF [_] _ => true | OF c _ => mem x c | OS _ => true | _ => false end.
+(* the operand cell at (t, x): own aligned cell, the single column of a pseudo-series, the scalar, or the default *)
+Definition ocell (m : method) (d : cell) (o : obj) (x t : Z) : cell :=
+  match o with
+  | OF [c0] r => row_get [c0] (row_val m [c0] r t) c0
+  | OF c r => fcell m d c r x t
+  | OS s => val_at m s t
+  | ON c => c
+  | _ => None
+  end.
+
 Section OPS.
   Variable opc : cell -> cell -> cell.
 
